@@ -27,6 +27,11 @@ type Env struct {
 	specSites map[string]string
 	specSelf  *SpecFunc
 	selfRec   bool
+	// quantifier scopes: well-typedness facts of the pointers/slice headers loaded from the heap inside the body;
+	// they are assumed (heap typing) when the quantified formula is built
+	qdepth  int
+	qfacts  *[]string
+	assume  bool // the clause is being evaluated to be assumed (not proved)
 }
 
 type specError struct{ msg string }
@@ -73,6 +78,12 @@ func (e *Env) loadAt(addr string, t types.Type, hint string) Val {
 	v := Val{T: t, S: make([]string, len(ls))}
 	for i, l := range ls {
 		v.S[i] = sel(e.arr(l.Site, l.Sort), add(addr, intLit(int64(l.Off))))
+	}
+	if e.qdepth > 0 && e.qfacts != nil && e.specSites == nil && e.st != nil && e.st.mem != nil {
+		lim := func(i int) string { return e.u.limitOf(e.st.mem, ls[i].Site) }
+		if f := e.u.typingFactLim(v, lim); f != "true" {
+			*e.qfacts = append(*e.qfacts, f)
+		}
 	}
 	return v
 }
@@ -714,10 +725,30 @@ func (e *Env) callExpr(n *ast.CallExpr) Val {
 		lo, hi := e.evalInt(n.Args[1]), e.evalInt(n.Args[2])
 		bv := quoteSym("q!" + id.Name)
 		ne := e.withBound(id.Name, intVal(bv))
+		var facts []string
+		ne.qdepth = e.qdepth + 1
+		ne.qfacts = &facts
 		body := ne.evalBool(n.Args[3])
 		e.quant = true
+		tf := and(dedup(facts)...)
+		if e.qfacts != nil && e.qdepth > 0 {
+			// facts not depending on the inner variable could be hoisted; keeping them here is sound and simpler
+		}
 		if name == "forall" {
+			if tf != "true" {
+				if e.assume {
+					body = and(tf, body)
+				} else {
+					body = implies(tf, body)
+				}
+			}
+			if pat := pickTrigger(body, bv); pat != "" && autoTriggers {
+				return boolVal(fmt.Sprintf("(forall ((%s Int)) (! (=> (and (<= %s %s) (< %s %s)) %s) :pattern (%s)))", bv, lo, bv, bv, hi, body, pat))
+			}
 			return boolVal(fmt.Sprintf("(forall ((%s Int)) (=> (and (<= %s %s) (< %s %s)) %s))", bv, lo, bv, bv, hi, body))
+		}
+		if tf != "true" {
+			body = and(tf, body)
 		}
 		return boolVal(fmt.Sprintf("(exists ((%s Int)) (and (<= %s %s) (< %s %s) %s))", bv, lo, bv, bv, hi, body))
 	case "allbytes":
@@ -1338,4 +1369,62 @@ func encodeFrameLemma(p *Program, db *ContractDB, key string) *UnitResult {
 	o2.Quant = true
 	res.Obls = u.obls
 	return res
+}
+
+
+// autoTriggers: experiments showed that restricting instantiation to one inferred trigger loses proofs; kept off.
+const autoTriggers = false
+
+// pickTrigger chooses an instantiation pattern for a quantified specification: the smallest term
+// (select A idx) whose index mentions the bound variable, contains no nested select and no other quantifier.
+func pickTrigger(body, bv string) string {
+	if strings.Contains(body, "(forall ") || strings.Contains(body, "(exists ") {
+		return ""
+	}
+	best := ""
+	for i := 0; i < len(body); i++ {
+		if !strings.HasPrefix(body[i:], "(select ") {
+			continue
+		}
+		// find the end of this term
+		depth, inq, end := 0, false, -1
+		for k := i; k < len(body); k++ {
+			c := body[k]
+			if c == '|' {
+				inq = !inq
+			}
+			if inq {
+				continue
+			}
+			if c == '(' {
+				depth++
+			} else if c == ')' {
+				depth--
+				if depth == 0 {
+					end = k
+					break
+				}
+			}
+		}
+		if end < 0 {
+			break
+		}
+		term := body[i : end+1]
+		inner := term[len("(select "):]
+		if strings.Contains(inner, "(select ") || strings.Contains(inner, "(ite ") || strings.Contains(inner, "bv2nat") {
+			continue
+		}
+		// the bound variable must occur as a token in the index
+		if !strings.Contains(inner, " "+bv+")") && !strings.Contains(inner, " "+bv+" ") && !strings.HasSuffix(strings.TrimSuffix(inner, ")"), " "+bv) {
+			continue
+		}
+		// the array must be a plain symbol (first argument)
+		if inner == "" || inner[0] == '(' {
+			continue
+		}
+		if best == "" || len(term) < len(best) {
+			best = term
+		}
+	}
+	return best
 }
